@@ -137,6 +137,37 @@ def _delta(base_len, s):
     return z3.And(*s.pc[base_len:]) if len(s.pc) > base_len else z3.BoolVal(True)
 
 
+def _mentions(t, bound, mark):
+    """does term t mention the bound element variable or a symbol created after `mark` (i.e. specific to the probed element)?"""
+    import re
+    seen, stack = set(), [t]
+    while stack:
+        x = stack.pop()
+        if x.get_id() in seen:
+            continue
+        seen.add(x.get_id())
+        if z3.is_const(x) and x.decl().kind() == z3.Z3_OP_UNINTERPRETED:
+            if any(z3.eq(x, b) for b in bound):
+                return True
+            m = re.search(r"!(\d+)$", x.decl().name())
+            if m and int(m.group(1)) > mark:
+                return True
+        elif z3.is_quantifier(x):
+            stack.append(x.body())
+        elif z3.is_app(x):
+            stack.extend(x.children())
+    return False
+
+
+def _split_delta(cond, bound, mark):
+    """(element-specific part, element-independent facts) of a path's accumulated condition"""
+    parts = cond.children() if z3.is_and(cond) else [cond]
+    own, glob = [], []
+    for c in parts:
+        (own if _mentions(c, bound, mark) else glob).append(c)
+    return (z3.And(*own) if own else z3.BoolVal(True)), glob
+
+
 def _symbolic(eng, node, st, fi, kind, g, restore):
     from .loops import describe_iter
     out = []
@@ -234,8 +265,26 @@ def _symbolic_one(eng, node, st: State, fi, kind, g, desc, restore):
     restore(st)
     # symbols introduced while evaluating the body on ONE element (results of contract calls, clock reads ...) become functions of
     # the element: each element has its own
+    # facts collected along a path that do not mention the element at all (closure / ordering / typing axioms added lazily) are facts
+    # of the enclosing state, not conditions on the element
+    hoisted = []
+    np_ = []
+    for c, a, b, e in paths:
+        own, glob = _split_delta(c, bound, mark)
+        for g_ in glob:
+            if not any(z3.eq(g_, h_) for h_ in hoisted):
+                hoisted.append(g_)
+        np_.append((own, a, b, e))
+    paths = np_
+    for h_ in hoisted:
+        st.assume(h_)
     sk = _Skolem(mark, bound[0])
     paths = [(sk.term(c), sk.sv(a), sk.sv(b), e) for c, a, b, e in paths]
+    # the paths found on the symbolic element are exhaustive, and what was assumed along each of them about the symbols created there
+    # (results of contract calls - now functions of the element - closure / typing facts) holds for every (well-typed) element:
+    # without this the per-path conditions below could only be used after re-proving those facts
+    if paths:
+        st.assume(sym.forall_pat(bound, z3.Implies(member, z3.Or(*[c for c, _, _, _ in paths])), member if len(bound) == 1 and not z3.is_and(member) else None))
     # ---- exceptional elements ----------------------------------------------------------------------------
     exc_paths = [(c, e) for c, _, _, e in paths if e is not None]
     results = []
@@ -318,7 +367,7 @@ def _symbolic_one(eng, node, st: State, fi, kind, g, desc, restore):
     # dict
     key_t = val_t
     value_t = ite_chain(1)
-    if not _injective_key(eng, key_t, xval, bound, desc):
+    if not _injective_key(eng, key_t, xval, bound, desc) and not _key_is_bound(eng, normal, key_t, bound, desc, member):
         raise Unsupported(f"dict comprehension whose key is not known to be injective at line {node.lineno}")
     v1 = kept[0][2]
     v1ty = getattr(v1, "ty", ANY) if all(repr(getattr(b, "ty", ANY)) == repr(getattr(v1, "ty", ANY)) for _, _, b in kept) else ANY
@@ -354,6 +403,19 @@ def _no_alloc(s, alloc_before, node):
 
 def _is_identity(val_t, xval):
     return z3.eq(z3.simplify(val_t), z3.simplify(xval))
+
+
+def _key_is_bound(eng, st, key_t, bound, desc, member):
+    """semantic variant of the first test: for a well-typed key k of the source dict, the key expression IS k (e.g. the `name` of
+    `for name, src in d.items()` re-wrapped at its static type)"""
+    if desc.kind not in ("keys", "items"):
+        return False
+    q = z3.Solver()
+    q.set("timeout", 2000)
+    q.add(member)
+    q.add(sym.type_constraint(bound[0], desc.ety, eng.reg))
+    q.add(key_t != bound[0])
+    return q.check() == z3.unsat
 
 
 def _injective_key(eng, key_t, xval, bound, desc):
